@@ -101,7 +101,7 @@ func genPattern(t *rapid.T, maxSeg int) (string, []PV) {
 }
 
 var qkeys = []string{"x", "y", "z", "k k", "ü", "a&b", "x=", "p0", "{p0}"}
-var qvals = []string{"", "1", "2", "a b", "a&b", "a=b", "ü", "+", "%2F", "#", "?", "{p0}", "\xff", "/"}
+var qvals = []string{"", "1", "2", "a b", "a&b", "a=b", "ü", "+", "%2F", "#", "?", "{p0}", "\xff", "/", "http://cb.example.com//hook", "/a/../b", "logs/2024/", "./x", "a//b"}
 
 // genLevel draws a set of keys with 1-2 values each; keys come from a tiny vocabulary so that levels collide.
 func genLevel(t *rapid.T, label string, maxKeys int) [][]string {
@@ -143,7 +143,15 @@ func staticQuery(t *rapid.T, label string, level [][]string) string {
 		}
 		return q.Encode()
 	}
-	esc := func(s string) string { return strings.ReplaceAll(url.QueryEscape(s), "+", "%20") }
+	// the hand-made spelling leaves the characters a query may carry unescaped ("/", ":", ".", "~", "@"): a static
+	// query such as callback=http://host/hook is written that way in real base paths
+	esc := func(s string) string {
+		e := strings.ReplaceAll(url.QueryEscape(s), "+", "%20")
+		for _, raw := range []string{"/", ":", "@"} {
+			e = strings.ReplaceAll(e, url.QueryEscape(raw), raw)
+		}
+		return e
+	}
 	var parts []string
 	for _, kv := range level {
 		for _, v := range kv[1:] {
